@@ -11,7 +11,7 @@ VARIABLES l, qdim, qshape, rel, bad, stat
 vars == <<l, qdim, qshape, rel, bad, stat>>
 Init == /\ l = 1 /\ qdim = ("Number" :> DZero) /\ qshape = ("Number" :> 1) /\ rel = <<>> /\ bad = <<>>
         /\ stat = [rels |-> 0, twins |-> 0, pairs |-> 0, pairs_decided |-> 0, defs |-> 0, other |-> 0,
-                 equiv |-> 0, twinnum |-> 0, inverse |-> 0, tensordefs |-> 0, monoreal |-> 0, tensordefreal |-> 0]
+                 equiv |-> 0, twinnum |-> 0, inverse |-> 0, tensordefs |-> 0, monoreal |-> 0, tensordefreal |-> 0, opnative |-> 0]
 IsEvent(e) == l <= Len(Facts) /\ Facts[l].e = e /\ l' = l + 1
 V(cls, key, detail) == [cls |-> cls, key |-> key, detail |-> detail]
 Judge(checks) == bad' = bad \o [i \in 1..Len(SelectSeq(checks, LAMBDA c : ~c[1])) |->
@@ -89,6 +89,12 @@ TEquiv == LET r == Facts[l] IN
               <<r.n > 0, V("inconclusive_equiv", rel[r.id].name, r.num)>> >>)
   /\ stat' = [stat EXCEPT !.equiv = @ + 1]
   /\ UNCHANGED <<qdim, qshape, rel>>
+(* C04-B: every operator instance returns, bit for bit, the native (correctly rounded) operation on the stored values in the written order *)
+TOpNative == LET r == Facts[l] IN
+  /\ IsEvent("OpNative") /\ r.id \in DOMAIN rel /\ rel[r.id].kind = "op" /\ r.n > 0
+  /\ Judge(<< <<r.diff = 0, V("op_not_native", rel[r.id].name, r.num)>> >>)
+  /\ stat' = [stat EXCEPT !.opnative = @ + 1]
+  /\ UNCHANGED <<qdim, qshape, rel>>
 (* C04-B: a constructor twin returns the bit-identical value of its operator *)
 TTwinNum == LET r == Facts[l] IN
   /\ IsEvent("TwinNum") /\ r.op \in DOMAIN rel /\ r.ctor \in DOMAIN rel
@@ -135,7 +141,7 @@ TTensorDefReal == LET r == Facts[l] IN
 TFinish == /\ l = Len(Facts) + 1 /\ l' = l + 1
            /\ JsonSerialize(IOEnv.OUT, [bad |-> bad, stat |-> stat])
            /\ UNCHANGED <<qdim, qshape, rel, bad, stat>>
-Next == TQDim \/ TRel \/ TTwin \/ TPair \/ TDef \/ TEquiv \/ TTwinNum \/ TInverse \/ TTensorDef \/ TMonoReal \/ TTensorDefReal \/ TFinish
+Next == TQDim \/ TRel \/ TTwin \/ TPair \/ TDef \/ TEquiv \/ TOpNative \/ TTwinNum \/ TInverse \/ TTensorDef \/ TMonoReal \/ TTensorDefReal \/ TFinish
 Spec == Init /\ [][Next]_vars
 Accepted == TLCGet("stats").diameter - 2 = Len(Facts)
 =============================================================================
